@@ -170,3 +170,5 @@ import models_fmt      # noqa
 import models_regex    # noqa
 import models_chrono   # noqa
 import models_json     # noqa
+import models_tera     # noqa
+_interp.OVERRIDES.update(models_tera.OVERRIDES)
